@@ -118,7 +118,11 @@ def points_for(rng, comp, npts):
 def run_case(ctx, res, case, lines, post):
     import random
     rng = random.Random(case['fseed'])
-    f = make_f(random.Random(case['fseed'] + 1), case['nin'], case['nout'], case['kind'])
+    f_real = make_f(random.Random(case['fseed'] + 1), case['nin'], case['nout'], case['kind'])
+    cur = {'f': f_real}
+
+    def f(alpha, x):
+        return cur['f'](alpha, x)
     out_names = [f'y{o}' for o in range(case['nout'])]
     comp, rec = cc.build_component(f, case['nin'], out_names, case['alpha_lim'], case['beta_lim'],
                                    tuple(case.get('surr_lim') or ()), case['domains'], case['norms_in'], case['norms_out'],
@@ -130,7 +134,28 @@ def run_case(ctx, res, case, lines, post):
             for a, b in hist:
                 comp.activate_index(a, b)
         else:
-            hist = cc.random_history(rng, comp, case['nsteps'])
+            lrng = random.Random(case['fseed'] + 11)
+            if lrng.random() < 0.3:
+                # life-cycle: trained on ANOTHER model first, then cleared — nothing of it may survive
+                cur['f'] = make_f(random.Random(case['fseed'] + 2), case['nin'], case['nout'], 'exp')
+                cc.random_history(random.Random(case['fseed'] + 3), comp, max(2, case['nsteps'] - 1))
+                comp.clear(); rec.calls.clear()
+                cur['f'] = f_real
+                res.hit('trained-on-another-model-then-cleared')
+            moving = lrng.random() < 0.3
+            ivars = list(comp.inputs)
+
+            def between(k_):
+                # an input domain GROWS between two refinements (as coupling bounds do during fit): every term must stay the
+                # interpolant of its own data on its own (old and new) knots
+                if moving and k_ % 2 == 1:
+                    d_ = lrng.randrange(len(ivars))
+                    if case['norms_in'][d_] != 'minmax':
+                        lb_, ub_ = ivars[d_].get_domain()
+                        w_ = ub_ - lb_
+                        ivars[d_].update_domain((lb_ - lrng.choice([0.0, 0.3]) * w_, ub_ + lrng.choice([0.2, 0.5]) * w_))
+                        res.hit('input-domain-grown-between-refinements')
+            hist = cc.random_history(rng, comp, case['nsteps'], between=between)
     except Exception as e:  # noqa: BLE001
         res.failures.append({'kind': 'activation-raised', 'input': case, 'observed': repr(e)[:300]})
         return
